@@ -18,6 +18,15 @@ _WS_RX = [
 ]
 _CS_WS = cs.WSWRITE + cs.WSCLOSE + _WS_RX
 
+# HTTP side (OwnBody): a Parse call and CloseAndClean are each ONE hold of the parser mutex (the twin's `parse` and
+# `closeAndClean` are atomic steps; the handler works on objects handed over to it: docs/resp.md §10 C11/3)
+_CS_HTTP = [
+    cs.pred("http_parse_cache_locked", "nbhttp/parser.go", "nbhttp.Parser.Parse",
+            guarded={"recv.mux": ["recv.bytesCached", "recv.state"]}),
+    cs.pred("http_close_and_clean_locked", "nbhttp/parser.go", "nbhttp.Parser.CloseAndClean",
+            guarded={"recv.mux": ["recv.bytesCached", "recv.state"]}, held_calls={"recv.mux": ["recv.Processor.Close"]}),
+]
+
 RESP_RUN = {"harness": "hresp", "driver": "respdrv",
             "fields": ["n", "err", "w", "head", "hdr", "rest", "trl", "close"], "corpus": "resp",
             "quick": {"n": 175, "shards": 16}, "thorough": {"n": 3200, "shards": 32}}
@@ -64,7 +73,7 @@ PROPS = {
                  {"harness": "hws", "driver": "wsdrv", "exec_args": ["-track"],
                   "fields": ["err", "werr", "rerr", "berr", "recv", "back"], "corpus": "ws",
                   "quick": {"n": 160, "shards": 8, "timeout": 400}, "thorough": {"n": 800, "shards": 16, "timeout": 3000}}],
-        "oracles": ["c11-"], "cs": _CS_WS,
+        "oracles": ["c11-"], "cs": _CS_WS + _CS_HTTP,
         "rule": "same stream as C09 (resp cases) plus body cases (segmented requests, handler reads, CloseAndClean) and conn cases (write "
                 "queue under scripted kernel answers) and ws cases (received segments with fragments/control frames/an invalid frame, "
                 "WriteMessage direct or through the async send queue with gated conn writes, write errors, CloseAndClean at any point); distinct by hash of (config, op-kind sequence with conn writes / parser state / "
